@@ -113,6 +113,88 @@ def sbestRun (tf cap start offset len cls order variant : Nat) (tw : List Nat) :
     let log := digits 200 (m'.huge[0]?.getD 0) []
     ("accessed " ++ " ".intercalate (log.map toString)).trimAsciiEnd.toString
 
+/-! ### `eval/src/bin/replay.rs`: bookkeeping of the trace replayer -/
+
+/-- `Allocation` (present entries only): the allocator frame and order recorded for a pfn -/
+structure RAlloc where
+  frame : Nat
+  order : Nat
+deriving Repr, DecidableEq
+
+/-- the `allocated` table restricted to present entries: pfn ↦ allocation -/
+abbrev RState := List (Nat × RAlloc)
+
+def RState.get (st : RState) (p : Nat) : Option RAlloc := (st.find? (fun e => e.1 == p)).map (·.2)
+
+/-- `allocated[p] = …` (`none` = an entry with `present = false`) -/
+def RState.set (st : RState) (p : Nat) (a : Option RAlloc) : RState :=
+  match a with
+  | some a => (p, a) :: st.filter (fun e => e.1 != p)
+  | none => st.filter (fun e => e.1 != p)
+
+/-- the search for the allocation covering a freed pfn: orders `k ..= TREE_ORDER` -/
+def findCover (treeOrder : Nat) (st : RState) (pfn k : Nat) : Option Nat :=
+  (List.range' k (treeOrder + 1 - k)).findSome? fun o =>
+    let p := pfn / 2 ^ o * 2 ^ o
+    match st.get p with
+    | some a => if a.order ≥ o then some p else none
+    | none => none
+
+/-- bookkeeping of a free event: the frame passed to `put` (at order `k`) and the new table;
+    `none` = "free unknown" -/
+def freeEvent (treeOrder : Nat) (st : RState) (pfn k : Nat) : Option (Nat × RState) :=
+  match findCover treeOrder st pfn k with
+  | none => none
+  | some ap =>
+    match st.get ap with
+    | none => none
+    | some a =>
+      let parts := List.range (2 ^ (a.order - k))
+      let st' := parts.foldl (fun st part =>
+        let partPfn := ap + part * 2 ^ k
+        st.set partPfn (if pfn != partPfn then some ⟨a.frame + part * 2 ^ k, k⟩ else none)) st
+      some (a.frame + (pfn - ap), st')
+
+/-- `Classing::movable(cores)` request of the replayer without a classing file -/
+def movableRequest (hugeOrder : Nat) (order core cores : Nat) (movable : Bool) : Request :=
+  if order ≥ hugeOrder then ⟨order, 2, some (core % cores)⟩
+  else if movable then ⟨order, 1, some (core % cores)⟩
+  else ⟨order, 0, some (core % cores)⟩
+
+/-- one trace event: alloc?, pfn, order, cpu, flags -/
+structure TraceEv where
+  alloc : Bool
+  pfn : Nat
+  order : Nat
+  cpu : Nat
+  flags : Nat
+
+/-- the replay loop over the allocator model: returns (free frames, failed frees, unknown frees)
+    or a panic (`get(..).unwrap()` on out of memory) -/
+def replayRun (c : Cfg) (cores : Nat) (evs : List TraceEv) (m : Mem) : Mem × Outcome (Nat × Nat × Nat) :=
+  let rec go (evs : List TraceEv) (m : Mem) (st : RState) (failed unknown : Nat) : Mem × Outcome (Nat × Nat × Nat) :=
+    match evs with
+    | [] =>
+      match runSolo (stats c) m with
+      | (m, .ok s) => (m, .ok (s.freeFrames, failed, unknown))
+      | (m, .panic e) => (m, .panic e)
+    | e :: rest =>
+      let req := movableRequest c.geom.hugeOrder e.order e.cpu cores ((e.flags &&& 0x08) != 0)
+      if e.alloc then
+        match runSolo (get c none req) m with
+        | (m, .ok (.ok (frame, _))) => go rest m (st.set e.pfn (some ⟨frame, e.order⟩)) failed unknown
+        | (m, .ok (.error _)) => (m, .panic "called `Result::unwrap()` on an `Err` value")
+        | (m, .panic s) => (m, .panic s)
+      else
+        match freeEvent c.geom.treeOrder st e.pfn e.order with
+        | none => go rest m st failed (unknown + 1)
+        | some (frame, st') =>
+          match runSolo (put c frame req) m with
+          | (m, .ok (.ok _)) => go rest m st' failed unknown
+          | (m, .ok (.error _)) => go rest m st' (failed + 1) unknown
+          | (m, .panic s) => (m, .panic s)
+  go evs m [] 0 0
+
 /-! parser of the matcher syntax `on:N | off:N | all(e,…) | any(e,…) | not(e)` -/
 def splitTop (s : List Char) : List (List Char) :=
   let rec go (cs : List Char) (depth : Nat) (cur : List Char) (acc : List (List Char)) : List (List Char) :=
@@ -193,6 +275,28 @@ def unitStep (tf : Nat) (cmd : String) (args : List String) : Option String :=
       | some cls =>
         let c : Cfg := { geom := ⟨ho, th⟩, frames := frames, classes := cls, dflt := 0, policy := fun _ _ _ => .invalid }
         some (if metaValid c ⟨la, ll, ta, tl, wa, wl⟩ then "ok" else "err init")
+      | none => some "bad-op"
+    | _, _, _, _ => some "bad-op"
+  | "replay", ho :: th :: cores :: maxPfn :: "|" :: evs =>
+    match ho.toNat?, th.toNat?, cores.toNat?, maxPfn.toNat? with
+    | some ho, some th, some cores, some maxPfn =>
+      let parsed := evs.mapM fun e => match e.splitOn ":" with
+        | [k, pfn, o, cpu, fl] => do
+          let pfn ← pfn.toNat?; let o ← o.toNat?; let cpu ← cpu.toNat?; let fl ← fl.toNat?
+          pure ({ alloc := k == "a", pfn := pfn, order := o, cpu := cpu, flags := fl } : TraceEv)
+        | _ => none
+      match parsed with
+      | some evs =>
+        let g : Geom := ⟨ho, th⟩
+        let c : Cfg := { geom := g, frames := maxPfn, classes := [(0, cores), (1, cores), (2, cores)], dflt := 2,
+                         policy := movablePolicy g.treeFrames }
+        let (m, o0) := runSolo (initProg c .freeAll) c.zeroMem
+        match o0 with
+        | .panic s => some ("panic " ++ s)
+        | .ok _ =>
+          match (replayRun c cores evs m).2 with
+          | .ok (free, failed, unknown) => let _ := unknown; some s!"replay free={free} failed={failed}"
+          | .panic s => some ("panic " ++ s)
       | none => some "bad-op"
     | _, _, _, _ => some "bad-op"
   | "req", cores :: core :: pid :: order :: gfp :: "|" :: cls =>
